@@ -20,6 +20,7 @@ INFO = {
         "model/PolicyEval.v c02_disc/c02_undisc are evaluated on Q (NumQ); theorems are on R; tied by paramcoq transfer (theory/PolicyEvalTransfer.v)",
         "generated parameters (gamma, probabilities, rewards, policy entries) reach the model exactly and msdm as nearest doubles",
         "the policy's own state/action lists are translated to MDP indices by the harness (position in the state_list/action_list msdm reports)",
+        "undiscounted cases: the absorption-time certificate tau (hypothesis of C02_undisc_expected_total_reward) is the harness' exact Fraction solve, accepted by model/PolicyEval.v:c02_tau in the same vm_compute term",
     ],
     "assumptions": ["MDP arrays of the model are built from the generator's definition in the state/action order msdm reports"],
 }
@@ -33,8 +34,9 @@ Definition pfun (psl pal : list nat) (dl : list (list (nat * Q))) :=
   @restrict Q NumQ psl pal (@to_tab Q NumQ psl pal (fun s => nth s dl [])).
 Definition chkd nS nA P R av ab ini g PI V Qv Oc iv tl :=
   @c02_disc Q NumQ (mk_mdp nS nA P R av ab ini g) PI (mk_eout V Qv Oc iv) tl.
-Definition chku nS nA P R av ab ini g PI V Qv Oc iv tl :=
-  @c02_undisc Q NumQ (mk_mdp nS nA P R av ab ini g) PI (mk_eout V Qv Oc iv) tl.
+Definition chku nS nA P R av ab ini g PI V Qv Oc iv tl (tau : list Q) :=
+  let m := mk_mdp nS nA P R av ab ini g in
+  (@c02_undisc Q NumQ m PI (mk_eout V Qv Oc iv) tl, @c02_tau Q NumQ m PI tau).
 """
 
 CL_DISC = ["wfb", "wfpolb", "wfinitb", "d_disc", "d_fin", "c_abs0", "d_v", "d_q", "d_occ", "d_init"]
@@ -270,6 +272,8 @@ def oracle(P, R, av, absf, ini, g, pi):
     if V0 is None or oc0 is None:
         return None
     V = [None if neginf[s] else V0[s] for s in range(n)]
+    # absorption-time certificate for props/C02.v:C02_undisc_expected_total_reward: tau = 1 + P_t tau
+    tau = solve_linear([[I(i, j) - Pt[i][j] for j in range(n)] for i in range(n)], [F(1)] * n)
     occinf = [closed[z] and any(ini[s] > 0 and z in reach[s] for s in range(n)) for z in range(n)]
     occ = [None if occinf[z] else oc0[z] for z in range(n)]
     Qm = []
@@ -282,7 +286,7 @@ def oracle(P, R, av, absf, ini, g, pi):
                 row.append(sar[s][a] + sum(P[s][a][k] * V[k] for k in range(n) if P[s][a][k] > 0))
         Qm.append(row)
     iv = None if any(ini[s] > 0 and V[s] is None for s in range(n)) else sum(ini[s] * V[s] for s in range(n) if ini[s] > 0)
-    return {"ab": ab, "av": av, "V": V, "Q": Qm, "occ": occ, "iv": iv, "iv2": None, "rpi": rpi, "closed": closed, "neginf": neginf}
+    return {"ab": ab, "av": av, "V": V, "Q": Qm, "occ": occ, "iv": iv, "iv2": None, "rpi": rpi, "closed": closed, "neginf": neginf, "tau": tau}
 
 
 def compare(res, orc, g, rel=F(1, 10**5)):
@@ -351,7 +355,7 @@ def run(ctx):
     terms, meta = [], []
     cnt = {k: 0 for k in ("discounted", "undiscounted", "form_tab", "form_fun", "nondyadic", "neginf_cases", "mixed_finite_and_neginf",
                           "occinf_cases", "q_absorbing_nonzero_cases", "policy_on_larger_state_list", "permuted_lists",
-                          "stochastic_policy_rows", "oracle_agree", "explicit_lists", "zero_prob_entries")}
+                          "stochastic_policy_rows", "oracle_agree", "explicit_lists", "zero_prob_entries", "tau_certificates_accepted")}
     orcs = {}
     for i, (case, res) in enumerate(zip(cases, impl)):
         g = F(case["mdp"]["gamma"])
@@ -388,9 +392,13 @@ def run(ctx):
         mt = " ".join([nat(len(sl)), nat(len(al)), qten(P), qten(R), bmat(av), blist(absf), qlist(ini), q(g)])
         out = " ".join([coqlist(ext(x) for x in res["V"]), coqlist(coqlist(ext(x) for x in r) for r in res["Q"]),
                         coqlist(ext(x) for x in res["occ"]), ext(res["initial_value"])])
-        terms.append("%s %s %s %s %s" % ("chku" if und else "chkd", mt, pterm, out, tol_term(res)))
+        orc = oracle(P, R, av, absf, ini, g, pi)
+        orcs[i] = (orc, pre)
+        tau = ""
+        if und:
+            tau = " " + qlist(orc["tau"] if orc and orc.get("tau") else [0] * len(sl))
+        terms.append("%s %s %s %s %s%s" % ("chku" if und else "chkd", mt, pterm, out, tol_term(res), tau))
         meta.append(i)
-        orcs[i] = (oracle(P, R, av, absf, ini, g, pi), pre)
     vals = ctx.coq(PRE, terms, shard=25 if tier == "quick" else 100)
     nchk = 0
     distinct = set()
@@ -406,6 +414,18 @@ def run(ctx):
         if any(not a for a in absorbing_vec(*gen_mdp.arrays(case["mdp"], res["state_list"], res["action_list"])[:4])):
             distinct.add(vlib.structural_hash([case["mdp"], case["policy"]]))
         names = CL_UNDISC if und else CL_DISC
+        if und:
+            if isinstance(v, tuple) and len(v) == 2:
+                v, tau_ok = v
+            else:
+                v, tau_ok = None, False
+            if tau_ok:
+                cnt["tau_certificates_accepted"] += 1
+            else:
+                ctx.violation("C02:undisc:absorption-time-certificate-rejected",
+                              {"case": case, "impl": res, "tau": [str(x) for x in (orc or {}).get("tau") or []],
+                               "correspondence": "model/PolicyEval.v:c02_tau rejects the harness' exact solution of tau = 1 + P_t tau (hypothesis of C02_undisc_expected_total_reward)"},
+                              found=False)
         failed = [c for c, okv in zip(names, v) if not okv] if isinstance(v, list) and len(v) == len(names) else ["malformed"]
         why = compare(res, orc, g) if orc is not None else None
         detail = {"case": case, "impl": res, "failed_clauses": failed}
